@@ -25,6 +25,29 @@ def to_scenario(sid, hist, typ, rng):
     return sc
 
 
+def gc_scenario(sid, hist, typ, rng):
+    """GlobalCount.tla history -> scenario: the server changes its behaviour, the gateway is left WITHOUT traffic for 7.5 s (watchdog 4 s,
+    resync 2 s, in-flight meter 1.2 s), admission is measured, 5.5 s pass before the next change (the rate meter averages over 3 s)"""
+    local, glob = (3, 10) if typ == "mif" else (2, 8)
+    sc = {"id": sid, "type": typ, "strategy": "globalCount", "local": local, "global": glob, "localBurst": local * 2, "globalBurst": glob * 2, "nilClientSets": False,
+          "steps": [{"k": "ready", "v": True}]}
+    qmap = {3: local, 4: local + 1, 10: glob, 11: glob + 1, 250: 25 * glob}
+    for h in hist:
+        k, q = h["k"], qmap.get(h["q"], h["q"])
+        if k == "ready":
+            sc["steps"].append({"k": "ready", "v": h["q"] == 1})
+        elif k == "accept":
+            sc["steps"].append({"k": "acq", "accept": True, "limit": q})
+        elif k == "reject":
+            sc["steps"].append({"k": "acq", "accept": False, "limit": q})
+        elif k == "tooold":
+            sc["steps"].append({"k": "acq", "err": "RequestIDTooOld"})
+        else:
+            sc["steps"].append({"k": "acq", "err": {"err": "scripted result error", "transport": "transport", "silent": "silent"}[k]})
+        sc["steps"] += [{"k": "sleep", "ms": 7500}, {"k": "measure"}, {"k": "sleep", "ms": 5500}]      # rate meter: 3 buckets of 1 s
+    return sc
+
+
 def main(tier, replay):
     t0 = time.time()
     seed = vlib.seed()
@@ -48,6 +71,19 @@ def main(tier, replay):
             if len(hists) < 10:
                 raise Infra("too few histories")
             scs = [to_scenario(i + 1, h, "mif" if i % 3 else "tb", rng) for i, h in enumerate(hists)]
+            # global-COUNT strategy
+            for variant, expect in (("fixed", False), ("pinned", True)):
+                gm = vlib.tlc("limiter", "GlobalCount", "GlobalCount.cfg", workers=8, timeout=900, consts={"Variant": '"%s"' % variant, "MaxSteps": 6 if tier == "quick" else 8})
+                if bool(gm.violation) != expect:
+                    raise Infra("GlobalCount.tla variant %s: unexpected result %s" % (variant, gm.violated()))
+                states, trans = states + gm.distinct, trans + gm.generated
+            ng = 120 if tier == "quick" else 2000
+            gg = vlib.tlc("limiter", "GlobalCountGen", "GlobalCountGen.cfg", workers=1, timeout=900, simulate="num=%d" % ng, depth=7, tlc_seed=seed)
+            gh = list({vlib.canon(h): h for h in gg.json_prints("HIST")}.values())
+            rng.shuffle(gh)
+            if len(gh) < 10:
+                raise Infra("too few global-count histories")
+            scs += [gc_scenario(700001 + i, h, "mif" if i % 4 else "tb", rng) for i, h in enumerate(gh[:ng])]
             # no client set at all (limiter server not configured): always the local limit
             scs.append({"id": 900001, "type": "mif", "strategy": "globalAllocate", "local": 3, "global": 10, "localBurst": 0, "globalBurst": 0, "nilClientSets": True,
                         "steps": [{"k": "measure"}, {"k": "sleep", "ms": 5000}, {"k": "measure"}]})
@@ -73,8 +109,13 @@ def main(tier, replay):
                     continue
                 if e["k"] == "ready":
                     e["v"] = e["v"] and known
+                if e["k"] == "acq":
+                    err = e.get("err", "")
+                    e["gk"] = "tooold" if err == "RequestIDTooOld" else "fail" if err else "accept" if e.get("accept") else "reject"
+                    e["q"] = e.get("limit", 0)
+                e.setdefault("gk", "")
                 evs.append(e)
-            tl.append({"id": int(sid), "type": sc["type"], "local": sc["local"], "global": sc["global"], "localBurst": sc["localBurst"], "globalBurst": sc["globalBurst"],
+            tl.append({"id": int(sid), "strategy": sc["strategy"], "type": sc["type"], "local": sc["local"], "global": sc["global"], "localBurst": sc["localBurst"], "globalBurst": sc["globalBurst"],
                        "nilcs": sc["nilClientSets"], "events": evs})
         tr_p = os.path.join(wd, "remote.ndjson")
         vlib.write_ndjson(tr_p, tl)
@@ -97,7 +138,10 @@ def main(tier, replay):
                        "max-in-flight and token-bucket schemas, plus 'no client set' and 'leader unknown'",
                "checker_cmd": "tlc RemoteClient.tla; tlc -simulate RemoteClientGen.tla; tlc TraceRemote.tla", "exhaustive": False}
         vlib.write_evidence(PROP, tier, "model_checking", cov, time.time() - t0, len(v.violations),
-                            ["global-ALLOCATE strategy only: the global-count wrappers leak goroutines by construction (waitAcquire) and cannot be run to completion in a virtual-time bubble; see DESIGN.md",
+                            ["global-count strategy: every measurement is taken after 7.5 s without traffic since the server changed its behaviour (watchdog 4 s, resync 2 s, in-flight meter 1.2 s, rate meter 3 s), "
+                             "so that 'max(peak in flight, local)' is the local limit; the scripted server answers every acquire call the same way until the next change; token-bucket schemas are judged by their "
+                             "window bounds only (global bound always, local bound while failing)",
+                             "the global-count wrappers leak one goroutine per timed-out waitAcquire; the harness recovers the bubble's end-of-test deadlock report for exactly that reason",
                              "ClientSets is a harness implementation of the exported interface (readiness scripted); the real client set's heartbeat hysteresis is not exercised"])
         return rc
     finally:
